@@ -146,6 +146,9 @@ def check(repo, col, tier):
     for cls in ELEMENTARY:
         _elementary(repo, col, cls)
     _struct(repo, col)
+    _exact_bounds(repo, col, "R-C17-bounds")
+    col.rule("R-C17-overflow", "no logarithm of an exponential that can overflow on the domain", 2)
+    _overflow(repo, col, "R-C17-overflow")
 
 
 def _elementary(repo, col, cls):
@@ -254,6 +257,111 @@ def _elementary(repo, col, cls):
               f"{'upper = ' + repr(declared_hi) if declared_hi is not None else 'no upper bound'}", node=fwd.node)
 
 
+def _overflow(repo, col, R):
+    """A composite like log(exp(z) - 1) is representable (it is ~ z) where its intermediate exp(z) is not (z > 709 in float64, 88 in
+    float32): the transform returns inf for a finite, representable input.  An overflow inside 1 / (1 + exp(.)) is benign -- it
+    saturates to the representable limit -- so the obligation is about logarithms only: whatever is handed to log / log1p contains
+    no exp / expm1 / cosh / sinh / power of an argument that can be large and positive on the method's domain.  The sign of the
+    argument is decided semantically: the method is evaluated on its domain (forward on a free x, inverse on y = forward(x)), the
+    exact form of every exponent is recorded, and it must be negative for all values of the atoms (exp atoms and log(1 + positive)
+    are positive, widths are positive)."""
+    EXPS = ("exp", "expm1", "exp2", "cosh", "sinh", "power", "float_power")
+    LOGS = ("log", "log1p", "log2", "log10")
+    mi = repo.mod(TF)
+    seen = {}     # id(call node) -> list of signs (+1 / -1 / None) over all evaluations that reached it
+
+    def record(ev, name):
+        orig = ev.PRIMS.get(name)
+        if orig is None:
+            return
+
+        def prim(self_, args, kw, node, _orig=orig):
+            for _c, r in as_pw(args[0]).pieces:
+                pos = kin.positive_atoms(self_, [r]) | {"W"}
+                for a_ in r.atoms():
+                    if a_.startswith("log#"):
+                        inner = self_.atoms.arg_of(a_) - ONE
+                        if rat_sign(inner, kin.positive_atoms(self_, [inner]) | {"W"}) == 1:
+                            pos.add(a_)         # log(1 + positive) > 0
+                seen.setdefault(id(node), []).append(rat_sign(r, pos) if not r.eq(ZERO) else -1)
+            return _orig(self_, args, kw, node)
+        ev.PRIMS[name] = prim
+    for cls in ELEMENTARY:
+        try:
+            ev = kin.new_eval(repo, transparent=True)
+            ev.PRIMS = dict(ev.PRIMS)
+            for nm in ("exp", "expm1"):
+                record(ev, nm)
+            obj = _mk(repo, cls, ev, _ctor_atoms(repo, cls)[1])
+            y = ev.call(repo.method(cls, "forward"), [kin.A("x")], selfv=obj)
+            ev.call(repo.method(cls, "inverse"), [y], selfv=obj)
+        except Und:
+            pass        # R-C17-inverse reports what cannot be evaluated; unreached exponentials count as unbounded below
+    n = 0
+    for cname, ci in sorted(mi.classes.items()):
+        for mname in ("forward", "inverse"):
+            if mname not in ci.methods:
+                continue
+            fi = ci.methods[mname]
+            local = {st.targets[0].id: st.value for st in ast.walk(fi.node) if isinstance(st, ast.Assign) and len(st.targets) == 1 and isinstance(st.targets[0], ast.Name)}
+
+            def risky(e, depth=0):
+                out = []
+                for c in ast.walk(e):
+                    if isinstance(c, ast.Call) and unparse(c.func).split(".")[-1] in EXPS and c.args:
+                        signs = seen.get(id(c))
+                        if not signs or any(s_ != -1 for s_ in signs):
+                            out.append(c)
+                    if isinstance(c, ast.Name) and c.id in local and depth < 4:
+                        out += risky(local[c.id], depth + 1)
+                return out
+            for c in ast.walk(fi.node):
+                if isinstance(c, ast.Call) and unparse(c.func).split(".")[-1] in LOGS and c.args:
+                    n += 1
+                    bad = risky(c.args[0])
+                    col.check(not bad, R, fi, f"{cname}.{mname}: `{unparse(c)[:60]}` takes the logarithm of nothing that can overflow", "every exponent is <= 0 on the domain",
+                              f"`{unparse(bad[0])[:50] if bad else ''}` is evaluated before the logarithm and its argument is not bounded above on the domain of "
+                              f"{mname}: for inputs beyond ~709 (float64; ~88 in float32) it is inf and so is the result, although the result itself (about "
+                              f"the size of the input) is representable -- inverse(forward(x)) != x for a finite x", node=bad[0] if bad else c)
+    if n < 2:
+        raise AnalysisError(f"only {n} logarithms found in the transforms")
+
+
+defs = {}
+
+
+def _exact_bounds(repo, col, R):
+    """The interval a transform maps onto is the one DECLARED: whatever the constructor stores is computed from its arguments in
+    the precision they were given in.  A narrowing cast (dtype=float32 / float16 / bfloat16 / an integer type, `.astype` to one of
+    them) moves the bounds to the nearest representable number: forward() then leaves the declared interval by up to one float32 ulp
+    under x64, and inverse() of a value between the two intervals is nan / -inf."""
+    NARROW = ("float32", "float16", "bfloat16", "half", "single", "int32", "int16", "int8", "int64", "int", "uint8", "int_")
+    mi = repo.mod(TF)
+    n = 0
+    for cname, ci in sorted(mi.classes.items()):
+        if "__init__" not in ci.methods:
+            continue
+        fi = ci.methods["__init__"]
+        bad = None
+        for c in ast.walk(fi.node):
+            if not isinstance(c, ast.Call):
+                continue
+            fn = unparse(c.func).split(".")[-1]
+            dt = next((k.value for k in c.keywords if k.arg == "dtype"), None)
+            if fn == "astype" and c.args:
+                dt = c.args[0]
+            if dt is None and fn in NARROW and unparse(c.func).split(".")[0] in ("jnp", "np", "jax"):
+                dt = c.func
+            if dt is not None and unparse(dt).split(".")[-1].strip("'\"") in NARROW:
+                bad = c
+        n += 1
+        col.check(bad is None, R, fi, f"{cname}.__init__ stores what it is given in the precision it is given in", "no narrowing cast",
+                  f"`{unparse(bad)[:70] if bad else ''}` narrows a constructor argument: under x64 the stored bound is the nearest float32, so forward() "
+                  f"leaves the declared interval near saturation and inverse() of a value in the gap is not finite", node=bad or fi.node)
+    if n < 5:
+        raise AnalysisError(f"only {n} transform constructors found")
+
+
 def _log_inner_atoms(ev, r):
     out = set()
     for a in r.atoms():
@@ -334,16 +442,20 @@ def _struct(repo, col):
         arg = fi.params[1]
         ok = False
         detail = ""
+        from sa.terms import canon as _canon
+        from . import idx as _idx
         if len(ex.returns) == 1:
-            r = ex.returns[0]
+            r = _canon(_idx.inline(repo, fi, ex.returns[0], value_only=True))     # a private helper shared by both directions is looked through
             if r.op == "mcall" and r.name == "where" and len(r.args) == 4:
                 m, a, b = r.args[1], r.args[2], r.args[3]
-                ok = (m.pretty() == "self.mask" and a.op == "mcall" and a.name == meth
-                      and a.args[0].pretty() == "self.transform" and a.args[1].op == "param" and a.args[1].name == arg
-                      and b.op == "param" and b.name == arg)
+                # self.transform.<meth>(v), also as a bound method handed to a helper and called there
+                direct = a.op == "mcall" and a.name == meth and a.args[0].pretty() == "self.transform" and a.args[1].op == "param" and a.args[1].name == arg
+                bound = a.op == "callv" and len(a.args) == 2 and a.args[0].op == "attr" and a.args[0].name == meth and \
+                    a.args[0].args[0].pretty() == "self.transform" and a.args[1].op == "param" and a.args[1].name == arg
+                ok = m.pretty() == "self.mask" and (direct or bound) and b.op == "param" and b.name == arg
                 detail = r.short()
         if not ok and len(ex.returns) == 1:
-            r = ex.returns[0]
+            r = _canon(_idx.inline(repo, fi, ex.returns[0], value_only=True))
             # arithmetic blending  m * f(v) + ~m * v  evaluates f on every entry and multiplies by 0:
             # NaN/inf of the inner transform outside its range leak into the untouched entries
             if r.op == "binop" and r.name == "+" and all(x.op == "binop" and x.name == "*" for x in r.args) and \
